@@ -374,6 +374,7 @@ def generate(run_seed, deep=False):
             break
     npints_variation(st["npints"], ops)
     errstate_variation(st["errstate"], ops)
+    G.printoptions_variation(st["printoptions"], ops, at_start_only=False)
     G.bitgen_variation(st["bitgen"], ops)
     G.generator_seed_variation(st["genseed"], ops, lambda r: r.get("op") == "call" and r.get("api") in
                                ("lganm.new", "gen.dag_avg_deg", "gen.dag_full", "gen.intervention_targets",
@@ -653,7 +654,7 @@ def fkind(ev):
         return "rng.stdlib"
     if op == "entropy.draw":
         return "entropy"
-    if op in ("gc", "py.import", "np.seterr"):
+    if op in ("gc", "py.import", "np.seterr", "np.printoptions"):
         return "gc"
     if op == "out.scribble":
         return "caller.scribble_output"
